@@ -233,6 +233,31 @@ impl C01 {
                 self.play(h, &mut c, ops);
                 true
             }
+            2 | 3 | 4 => {
+                // many accounts; a contiguous run (in listing order) of more than a page of them is emptied
+                let n = 40 + (h.idx as usize) * 9;
+                let mut addrs: Vec<String> = (0..n).map(|i| crate::direct::mk_addr(&format!("holder-{i}"))).collect();
+                addrs.sort();
+                let cfg = InitCfg { balances: addrs.iter().map(|x| (x.clone(), 10u128)).collect(), mint: None, marketing: None };
+                if !c.instantiate(&cfg).is_ok() {
+                    return true;
+                }
+                let sink_acct = addrs[n - 1].clone();
+                let start = (h.idx as usize) % 3;
+                let run = 31 + (h.idx as usize) % 4;
+                let mut pre = c.snap(false);
+                if !invariant(h, &pre, "directed-start") {
+                    return true;
+                }
+                for x in addrs.iter().skip(start).take(run) {
+                    let op = Op::Transfer { to: sink_acct.clone(), amt: 10 };
+                    if !self.step(h, &mut c, &mut pre, x, &op) {
+                        return true;
+                    }
+                }
+                h.out.count("worlds_with_a_run_of_more_than_30_emptied_accounts");
+                true
+            }
             _ => false,
         }
     }
@@ -324,6 +349,7 @@ impl Monitor for C01 {
             "zero_amount_ok",
             "instantiate_accepted",
             "instantiate_rejected",
+            "worlds_with_a_run_of_more_than_30_emptied_accounts",
         ]
     }
     fn rule(&self) -> &'static str {
